@@ -1,3 +1,14 @@
 // From<Redirection> for InputRedirection: wraps the redirection, and panics for Merge ("only allowed for output streams").
 // A trait method cannot carry a precondition in Verus, so the body is not verified here; the callers' contracts (in_ok) exclude Merge.
 impl From<Redirection> for InputRedirection { #[verifier::external_body] fn from(r: Redirection) -> (res: Self) { unimplemented!() } }
+// the null device, as NullFile opens it: R6 `OpenOptions::new().read(true).open(NULL_DEVICE).unwrap()` = open_null_device_read(),
+// `...write(true)...` = open_null_device_write().  That the device exists and can be opened is assumed (otherwise the documented panic)
+pub struct NullFile;
+pub uninterp spec fn is_null_device(obj: int) -> bool;
+pub uninterp spec fn opened_for(obj: int) -> (bool, bool);      // (reading, writing)
+#[verifier::external_body]
+pub fn open_null_device(read: bool, write: bool) -> (f: File)
+    ensures is_null_device(f.obj@), opened_for(f.obj@) == (read, write)
+{ unimplemented!() }
+pub fn open_null_device_read() -> (f: File) ensures is_null_device(f.obj@), opened_for(f.obj@) == (true, false) { open_null_device(true, false) }
+pub fn open_null_device_write() -> (f: File) ensures is_null_device(f.obj@), opened_for(f.obj@) == (false, true) { open_null_device(false, true) }
